@@ -172,6 +172,8 @@ type sess struct {
 	enc *hpack.Encoder
 	hb  bytes.Buffer
 	n   int // frames written
+	// cumulative HeaderField sizes (RFC 7541 §4.1) after each field of each header block written
+	sums []uint32
 }
 
 func newSess() *sess {
@@ -198,8 +200,11 @@ func genStreamID(r *vu.Rng) uint32 {
 // headerBlock writes HEADERS (+CONTINUATIONs) for an encoded field list, split at random points.
 func (s *sess) headerBlock(r *vu.Rng) {
 	s.hb.Reset()
+	var sum uint32
 	for _, f := range genBlockFields(r) {
 		s.enc.WriteField(f)
+		sum += uint32(len(f.Name) + len(f.Value) + 32)
+		s.sums = append(s.sums, sum)
 	}
 	block := append([]byte{}, s.hb.Bytes()...)
 	if r.Chance(1, 7) {
@@ -350,6 +355,7 @@ func mutate(r *vu.Rng, b []byte) []byte {
 
 func gen(r *vu.Rng, i int) []string {
 	var stream []byte
+	var sums []uint32
 	nreads := 3
 	switch k := r.Intn(10); {
 	case k == 0: // unstructured bytes with a plausible first header
@@ -376,6 +382,7 @@ func gen(r *vu.Rng, i int) []string {
 			stream = append([]byte("HTTP/1.1 400 Bad Request\r\n\r\n"), stream...)
 		}
 		nreads = s.n + 2
+		sums = s.sums
 	}
 	// read limit: mostly generous; otherwise around the largest frame of the stream, or a boundary value
 	// (a generous limit is usually 2^16: the Framer allocates Length bytes per frame, and 16 MiB
@@ -411,6 +418,14 @@ func gen(r *vu.Rng, i int) []string {
 		mhls = mhlsPool[r.Intn(len(mhlsPool))]
 	} else if r.Bool() {
 		mhls = uint32(r.Intn(500))
+	}
+	if len(sums) > 0 && r.Chance(1, 3) {
+		// exact boundary: the limit is the header list size up to some field, or one off
+		mhls = sums[r.Intn(len(sums))] + uint32(r.Intn(3)) - 1
+		if mhls == 0 {
+			mhls = 1 // 0 means "default"
+		}
+		meta = meta || r.Chance(2, 3)
 	}
 	ops := []string{fmt.Sprintf("reset %d %s %d %s", maxRead, b01(meta), mhls, vu.Hex(stream))}
 	for j := 0; j < nreads; j++ {
@@ -726,6 +741,22 @@ func checkMeta(st *state, mh *http2.MetaHeadersFrame, all []hpack.HeaderField, s
 	}
 	if total > limit {
 		o.Fail("meta-header-list-too-large", fmt.Sprintf("header list size %d exceeds MaxHeaderListSize %d (Truncated=%v)", total, limit, mh.Truncated))
+	}
+	if mh.Truncated && s1ok {
+		// Truncated only if the complete decoded header list really exceeds the limit
+		var full uint64
+		for _, hf := range all {
+			full += uint64(len(hf.Name)) + uint64(len(hf.Value)) + 32
+		}
+		if full <= limit {
+			o.Fail("meta-truncated-within-limit", fmt.Sprintf("Truncated although the header list size %d does not exceed MaxHeaderListSize %d", full, limit))
+		}
+		if full == limit+1 {
+			o.Stat("branch:meta-truncated-by-one")
+		}
+	}
+	if !mh.Truncated && total == limit {
+		o.Stat("branch:meta-size-equals-limit")
 	}
 	if mh.Truncated {
 		o.Stat("branch:meta-truncated")
